@@ -11,8 +11,11 @@ VARIABLES s, k
 O == [rfc20 |-> (OptBits % 2) = 1, f5322 |-> ((OptBits \div 2) % 2) = 1, us |-> ((OptBits \div 4) % 2) = 1]
 a == 97
 Access == << <<>>, <<a>>, <<a, DOT>>, <<DQ>>, <<DQ, a>>, <<DQ, BS>>, <<DQ, a, DQ>>, <<DQ, a, DQ, DOT>>, <<DQ, a, CR>>, <<DQ, a, CR, LF>>,
-             <<DQ, SP>>, <<DQ, a, SP>>, <<DQ, BS, DQ>>, <<a, DOT, DQ>>, <<195, 169>>, <<DQ, 195, 169>>, <<195, 169, DOT>>, <<DQ, a, LF>> >>
-Sfx == << <<>>, <<a>>, <<DQ>>, <<DOT, a>>, <<DQ, a>>, <<BS, DQ>>, <<SP, DQ>>, <<a, DQ>>, <<DQ, DOT, a>>, <<DOT>>, <<LF, SP, DQ>> >>
+             <<DQ, SP>>, <<DQ, a, SP>>, <<DQ, BS, DQ>>, <<a, DOT, DQ>>, <<195, 169>>, <<DQ, 195, 169>>, <<195, 169, DOT>>, <<DQ, a, LF>>,
+             \* deeper offsets: word-at-a-time or vectorised scans treat the 4th, 8th, 16th, 32nd byte differently
+             Rep(a, 3), Rep(a, 7), Rep(a, 8), Rep(a, 15), Rep(a, 17), Rep(a, 33), <<DQ>> \o Rep(a, 6), <<DQ>> \o Rep(a, 15) >>
+Sfx == << <<>>, <<a>>, <<DQ>>, <<DOT, a>>, <<DQ, a>>, <<BS, DQ>>, <<SP, DQ>>, <<a, DQ>>, <<DQ, DOT, a>>, <<DOT>>, <<LF, SP, DQ>>,
+          <<SP, a, DQ>>, <<a, SP, a, DQ>>, Rep(a, 9), Rep(a, 8) \o <<DQ>> >>
 Bound == {0, 127, 128, 143, 144, 159, 160, 170, 175, 176, 187, 190, 191, 192, 255}
 Second == IF Full THEN 1..255 ELSE Bound \ {0}
 Third == IF Full THEN {127, 128, 159, 160, 191, 192} ELSE {127, 128, 191, 192}
